@@ -158,6 +158,9 @@ Section Condense.
       change (vnth o (vsel o (vset x I z) I) p = vnth o z p). rewrite vnth_vsel by assumption. now apply vset_at.
   Qed.
 
+  Lemma vsel_length (y : list R) J : length (vsel o y J) = length J.
+  Proof. unfold vsel. apply map_length. Qed.
+
   Lemma vsel_ext y y' J : (forall c, In c J -> vnth o y c = vnth o y' c) -> vsel o y J = vsel o y' J.
   Proof. intros H. unfold vsel. apply map_ext_in. exact H. Qed.
 
